@@ -46,6 +46,13 @@ type Config struct {
 	MaxSteps int64 // abort the run (harness error) beyond this many yields; 0 = 50M
 	Valve    int64 // force a switch after this many yields without one; 0 = 20000
 	Trace    int   // keep the last Trace log entries for reports
+	// SpinSleep > 0: a task stopped by the valve (it ran Valve yields without blocking, i.e. it
+	// busy-waits, like subscribe.send polling a full channel) is put to sleep on the fake clock
+	// (SpinSleep, doubling per consecutive hit up to 128x) before it is made ready again; only
+	// after spinAfter consecutive valve periods without ever blocking, so computations are left alone.
+	// Without it simulated time cannot advance while a task spins waiting for a timer-driven
+	// peer. 0 keeps the plain behaviour (preempt only).
+	SpinSleep time.Duration
 }
 
 const (
@@ -66,6 +73,7 @@ type Task struct {
 	site  int
 	low   bool // the world task: runs only when nothing else is ready
 	prio  int
+	spins int // consecutive valve hits (Config.SpinSleep)
 	sim   *Sim
 
 	Finished   bool
@@ -109,8 +117,12 @@ type Sim struct {
 	pctPoints   []int64
 	pctLow      int
 	Adopted     int
+	valveHit    bool
+	timerSeq    int64
 	Panics      []PanicInfo
 	Overrun     bool
+	// OverrunStack is the stack of the task that was running when the step budget ran out.
+	OverrunStack string
 
 	digest  uint64
 	logN    int64
@@ -301,6 +313,30 @@ func Yield(site int) {
 			return
 		}
 		s.logf("pre", int64(t.ID), int64(site), "")
+		if s.valveHit && s.cfg.SpinSleep > 0 && !t.low {
+			s.valveHit = false
+			// t.spins = consecutive valve hits without the task ever blocking in between (reset by
+			// the scheduler when it sees the token holder blocked natively). A computation, however
+			// long, is left alone for spinAfter valve periods; beyond that the task is busy-waiting.
+			t.spins++
+			if t.spins > spinAfter {
+				k := t.spins - spinAfter - 1
+				if k > 7 {
+					k = 7
+				}
+				d := s.cfg.SpinSleep << uint(k)
+				s.logf("spin", int64(t.ID), int64(d), "")
+				s.current.Store(nil)
+				select {
+				case s.kick <- struct{}{}:
+				default:
+				}
+				time.Sleep(d) // from here on this goroutine does not hold the token: touch nothing shared
+				s.park(t)
+				return
+			}
+		}
+		s.valveHit = false
 		s.park(t)
 		return
 	}
@@ -326,6 +362,9 @@ func Yield(site int) {
 //go:norace
 func (s *Sim) wantPreempt(t *Task) bool {
 	if s.Steps > s.maxSteps() {
+		if !s.Overrun {
+			s.OverrunStack = string(debug.Stack())
+		}
 		s.Overrun = true
 		panic(overrun{})
 	}
@@ -334,6 +373,7 @@ func (s *Sim) wantPreempt(t *Task) bool {
 		valve = 20000
 	}
 	if s.Steps-s.lastSwitch > valve {
+		s.valveHit = true
 		return true
 	}
 	switch s.cfg.Policy {
@@ -352,6 +392,9 @@ func (s *Sim) wantPreempt(t *Task) bool {
 	}
 	return false
 }
+
+// spinAfter: valve periods a task may compute without blocking before Config.SpinSleep applies.
+const spinAfter = 8
 
 type overrun struct{}
 
@@ -450,15 +493,19 @@ func AfterFunc(d time.Duration, f func()) *time.Timer {
 		node = p.Node
 	}
 	epoch := s.nodeEpoch[node&63].Load()
-	return time.AfterFunc(d, func() {
+	// The task identity is assigned now, by the arming task: timers of several nodes that
+	// fire at the same simulated instant start their goroutines concurrently, and ids taken
+	// at that moment would depend on the real-time race between them.
+	t := s.newTask("afterfunc", node, false)
+	return time.AfterFunc(uniq(d), func() {
 		s2 := cur.Load()
 		if s2 != s || s.stopped.Load() {
 			return
 		}
 		if s.nodeEpoch[node&63].Load() != epoch {
+			t.state.Store(stDone)
 			return
 		}
-		t := s.newTask("afterfunc", node, false)
 		s.runTask(t, f)
 	})
 }
@@ -476,6 +523,7 @@ func (s *Sim) loop() {
 		}
 		if c := s.current.Load(); c != nil && c.state.Load() == stNative {
 			// the token holder blocked natively (or is the world sleeping): release the token
+			c.spins = 0
 			s.current.Store(nil)
 		}
 		ready = ready[:0]
@@ -601,6 +649,7 @@ type World struct {
 // Run executes root inside a fresh synctest bubble under the token scheduler.
 func Run(t *testing.T, tape *Tape, cfg Config, root func(w *World)) (res RunResult) {
 	s := &Sim{Tape: tape, cfg: cfg, byG: make(map[uintptr]*Task)}
+	ResetTimerSeq()
 	defer func() {
 		if r := recover(); r != nil {
 			msg := fmt.Sprint(r)
